@@ -11,6 +11,7 @@ import (
 	"strings"
 	"time"
 
+	"github.com/expr-lang/expr/builtin"
 	yaml "gopkg.in/yaml.v3"
 
 	"github.com/titpetric/vuego/internal/helpers"
@@ -234,6 +235,64 @@ func (v *Vue) evalPipe(ctx VueContext, expr pipeExpr) (any, error) {
 	return val, nil
 }
 
+// exprEnv returns the environment for expression evaluation: the variables in scope plus
+// the registered template functions, so that expressions can call them in every position
+// (v-if, v-show, operands, object bindings). A variable shadows a function of the same name.
+func (v *Vue) exprEnv(ctx VueContext) map[string]any {
+	env, _ := v.exprEnvWithErr(ctx)
+	return env
+}
+
+// exprEnvWithErr is exprEnv; in addition the returned pointer receives the first error
+// reported by a registered function during evaluation (wrong argument count, impossible
+// conversion, error result), which positions that tolerate evaluation errors must not swallow.
+func (v *Vue) exprEnvWithErr(ctx VueContext) (map[string]any, *error) {
+	env := ctx.stack.EnvMap()
+	callErr := new(error)
+	for name, fn := range v.funcMap {
+		if _, shadowed := env[name]; shadowed {
+			continue
+		}
+		fn := fn
+		name := name
+		env[name] = func(args ...any) (any, error) {
+			result, err := v.callFunc(&ctx, fn, args...)
+			if err != nil {
+				err = fmt.Errorf("%s(): %w", name, err)
+				if *callErr == nil {
+					*callErr = err
+				}
+				return nil, err
+			}
+			return result, nil
+		}
+	}
+	return env, callErr
+}
+
+// calledNameRe matches the name of a called function (not a method: no leading dot).
+var calledNameRe = regexp.MustCompile(`(?:^|[^\w.])([A-Za-z_]\w*)\s*\(`)
+
+// funcFailure explains why an expression that failed to evaluate must fail the render:
+// a registered function reported an error, or the expression calls a function that does
+// not exist. It returns nil for any other evaluation problem.
+func funcFailure(expression string, env map[string]any, callErr error) error {
+	if callErr != nil {
+		return fmt.Errorf("in expression '%s': %w", expression, callErr)
+	}
+	for _, m := range calledNameRe.FindAllStringSubmatch(expression, -1) {
+		name := m[1]
+		if _, known := env[name]; known {
+			continue
+		}
+		if _, builtIn := builtin.Index[name]; builtIn {
+			continue
+		}
+		return fmt.Errorf("in expression '%s': function '%s' not found", expression, name)
+	}
+	return nil
+}
+
 // evalSegment evaluates a single pipe segment (either filter or expression)
 // isFirst indicates if this is the first segment
 // fromInitial indicates if the input came from initial variable resolution
@@ -243,7 +302,7 @@ func (v *Vue) evalSegment(ctx VueContext, seg pipeSegment, input any, isFirst, f
 		return v.evalFilter(ctx, seg, input, isFirst, fromInitial)
 	case segmentExpr:
 		// Use expr library with . representing the input value
-		env := ctx.stack.EnvMap()
+		env := v.exprEnv(ctx)
 		if input != nil {
 			env["."] = input
 		}
